@@ -58,11 +58,13 @@ fn plan(rng: &mut Rng, m: &mut Matcher, v: &Vocab, len: usize) -> (Vec<Op>, Vec<
     let mut ops = vec![];
     let mut res = vec![];
     let mut depth = 0usize;
-    for _ in 0..len {
+    let commits_first = rng.chance(1, 2);
+    for i in 0..len {
         if m.is_stopped() {
             break;
         }
-        let op = match rng.below(10) {
+        let roll = if commits_first { if i + 1 < len && i < 2 { 3 } else if i >= 2 { rng.below(2) } else { rng.below(10) } } else { rng.below(10) };
+        let op = match roll {
             0 | 1 => Op::Mask,
             2..=5 => {
                 let Ok(mask) = m.deep_clone().compute_mask() else { break };
@@ -120,7 +122,11 @@ fn interleavings(lens: &[usize]) -> Vec<Vec<usize>> {
 
 fn pick_case(rng: &mut Rng, idx: u64) -> (GCase, Vocab) {
     let g = loop {
-        let g = if rng.chance(1, 2) {
+        let twins = crate::mon_c11::twin_prefix_grammars();
+        let g = if rng.chance(1, 3) {
+            // two clones that take different prefixes reach the same (row, lexer state) shape
+            twins[rng.below(twins.len())].clone()
+        } else if rng.chance(1, 2) {
             let i = rng.below(pool::n_corpus() as usize) as u64;
             pool::grammar(rng, i)
         } else {
@@ -147,7 +153,7 @@ fn base_engine(rng: &mut Rng, g: &GCase, v: &Vocab) -> Option<(Matcher, Vec<u32>
     if m.is_error() {
         return None;
     }
-    let k = rng.below(4);
+    let k = if rng.chance(1, 2) { 0 } else { rng.below(4) };
     let (h, _) = walker::walk(rng, &mut m, v, k);
     if m.is_stopped() {
         return None;
